@@ -578,6 +578,10 @@ func (a *Array) PopIterate(fn ArrayPopIterationFunc) error {
 		return err
 	}
 
+	// All elements are removed, so no mutable element is tracked by index anymore.
+	// Stale entries would make the next Insert or Append fail in incrementIndexFrom().
+	clear(a.mutableElementIndex)
+
 	rootID := a.root.SlabID()
 
 	extraData := a.root.ExtraData()
